@@ -190,7 +190,7 @@ func runC18(c *Ctx) {
 					// edge taken under `prev > bound`
 					for _, g := range guardsAt(pred) {
 						if bo, ok := g.Cond.(*ssa.BinOp); ok && bo.Op == token.GTR && g.True {
-							if isBound == "maxBytes" && stripConvNum(bo.Y) == ssa.Value(fn.Params[1]) {
+							if isBound == "maxBytes" && sameParam(stripConvNum(bo.Y), fn.Params[1]) {
 								clampMax = true
 							}
 							if _, f, _, ok := loadedField(stripConvNum(bo.Y)); ok && f == "maxFrameSize" && isBound == "maxFrameSize" {
@@ -201,7 +201,7 @@ func runC18(c *Ctx) {
 					if pred == phi.Block().Preds[i] && !clampMax && isBound == "maxBytes" {
 						// the assignment block itself is the guarded block
 						if ifi := guardingIf(pred); ifi != nil {
-							if bo, ok := ifi.Cond.(*ssa.BinOp); ok && bo.Op == token.GTR && stripConvNum(bo.Y) == ssa.Value(fn.Params[1]) {
+							if bo, ok := ifi.Cond.(*ssa.BinOp); ok && bo.Op == token.GTR && sameParam(stripConvNum(bo.Y), fn.Params[1]) {
 								clampMax = true
 							}
 						}
@@ -252,7 +252,7 @@ func runC18(c *Ctx) {
 					if !okf || f != "n" {
 						continue
 					}
-					if base == ssa.Value(fn.Params[0]) {
+					if sameParam(base, fn.Params[0]) {
 						hasOwn = true
 					} else {
 						// conn.n taken only when smaller
@@ -280,7 +280,7 @@ func runC18(c *Ctx) {
 		forEachInstr(fn, false, func(_ *ssa.Function, in ssa.Instruction) {
 			if st, ok := in.(*ssa.Store); ok {
 				if _, f, _, okf := fieldAddrInfo(st.Addr); okf && f == "n" {
-					if bo, isB := st.Val.(*ssa.BinOp); isB && bo.Op == token.SUB && bo.Y == ssa.Value(fn.Params[1]) {
+					if bo, isB := st.Val.(*ssa.BinOp); isB && bo.Op == token.SUB && sameParam(bo.Y, fn.Params[1]) {
 						subs++
 					}
 				}
